@@ -105,75 +105,61 @@ def ETok.ofTok : Tok → Option (ETok V)
 
 /-! ## 1. the Lark parse -/
 mutual
-/-- `exp: mulexp ((+|-) mulexp)*` -/
+/-- `exp: mulexp (('+'|'-') mulexp)*` -/
 def qExp : Nat → List (ETok V) → Option (QE V × List (ETok V))
   | 0, _ => none
-  | f + 1, ts =>
-    match qMul f ts with
-    | some (l, r) => qExpLoop f l r
-    | none => none
+  | f + 1, ts => (qMul f ts).bind fun p => qExpLoop f p.1 p.2
 def qExpLoop : Nat → QE V → List (ETok V) → Option (QE V × List (ETok V))
   | 0, _, _ => none
-  | f + 1, acc, .plus :: ts =>
-    match qMul f ts with
-    | some (r, rest) => qExpLoop f (.bin .add acc r) rest
-    | none => none
-  | f + 1, acc, .minus :: ts =>
-    match qMul f ts with
-    | some (r, rest) => qExpLoop f (.bin .sub acc r) rest
-    | none => none
-  | _ + 1, acc, ts => some (acc, ts)
-/-- `mulexp: primaryexp ((*|/) primaryexp)*` -/
+  | f + 1, acc, ts =>
+    match ts with
+    | .plus :: ts' => (qMul f ts').bind fun p => qExpLoop f (.bin .add acc p.1) p.2
+    | .minus :: ts' => (qMul f ts').bind fun p => qExpLoop f (.bin .sub acc p.1) p.2
+    | _ => some (acc, ts)
+/-- `mulexp: primaryexp (('*'|'/') primaryexp)*` -/
 def qMul : Nat → List (ETok V) → Option (QE V × List (ETok V))
   | 0, _ => none
-  | f + 1, ts =>
-    match qPrim f ts with
-    | some (l, r) => qMulLoop f l r
-    | none => none
+  | f + 1, ts => (qPrim f ts).bind fun p => qMulLoop f p.1 p.2
 def qMulLoop : Nat → QE V → List (ETok V) → Option (QE V × List (ETok V))
   | 0, _, _ => none
-  | f + 1, acc, .star :: ts =>
-    match qPrim f ts with
-    | some (r, rest) => qMulLoop f (.bin .mul acc r) rest
-    | none => none
-  | f + 1, acc, .slash :: ts =>
-    match qPrim f ts with
-    | some (r, rest) => qMulLoop f (.bin .div acc r) rest
-    | none => none
-  | _ + 1, acc, ts => some (acc, ts)
+  | f + 1, acc, ts =>
+    match ts with
+    | .star :: ts' => (qPrim f ts').bind fun p => qMulLoop f (.bin .mul acc p.1) p.2
+    | .slash :: ts' => (qPrim f ts').bind fun p => qMulLoop f (.bin .div acc p.1) p.2
+    | _ => some (acc, ts)
 /-- `primaryexp`, with `pow: primaryexp "^" primaryexp` resolved by shifting (right-assoc). -/
 def qPrim : Nat → List (ETok V) → Option (QE V × List (ETok V))
   | 0, _ => none
   | f + 1, ts =>
-    match qAtom f ts with
-    | some (a, .pow :: r) =>
-      (match qPrim f r with
-       | some (b, rest) => some (.pow a b, rest)
-       | none => none)
-    | some (a, r) => some (a, r)
-    | none => none
+    (qAtom f ts).bind fun p =>
+      match p.2 with
+      | .pow :: r => (qPrim f r).bind fun q => some (.pow p.1 q.1, q.2)
+      | _ => some p
 def qAtom : Nat → List (ETok V) → Option (QE V × List (ETok V))
   | 0, _ => none
-  | f + 1, .lp :: ts =>
-    (match qExp f ts with
-     | some (e, .rp :: r) => some (.paren e, r)
-     | _ => none)
-  | f + 1, .minus :: ts =>             -- usub: "-" exp  (greedy: the whole following exp)
-    (match qExp f ts with
-     | some (e, r) => some (.usub e, r)
-     | none => none)
-  | f + 1, .fn g :: .lp :: ts =>
-    (match qExp f ts with
-     | some (e, .rp :: r) => some (.call g e, r)
-     | _ => none)
-  | _ + 1, .lit s :: ts => some (.num s, ts)
-  | _ + 1, .name s :: ts => some (.id s, ts)
-  | _ + 1, _ => none
+  | f + 1, ts =>
+    match ts with
+    | .lp :: ts' =>
+      (qExp f ts').bind fun p =>
+        match p.2 with
+        | .rp :: r => some (.paren p.1, r)
+        | _ => none
+    | .minus :: ts' =>                 -- usub: "-" exp  (greedy: the whole following exp)
+      (qExp f ts').bind fun p => some (.usub p.1, p.2)
+    | .fn g :: .lp :: ts' =>
+      (qExp f ts').bind fun p =>
+        match p.2 with
+        | .rp :: r => some (.call g p.1, r)
+        | _ => none
+    | .lit s :: ts' => some (.num s, ts')
+    | .name s :: ts' => some (.id s, ts')
+    | _ => none
 end
 
 /-- Enough fuel for any token list: every call either consumes a token or descends one of
-the six mutually recursive levels. -/
-def exprFuel (ts : List (ETok V)) : Nat := 8 * ts.length + 8
+the mutually recursive levels (the fuel bounds the recursion DEPTH; Proofs/QasmPrec shows it
+suffices for every tree). -/
+def exprFuel (ts : List (ETok V)) : Nat := 64 * ts.length + 64
 
 /-- Lark parse of a complete expression. -/
 def larkParse (ts : List (ETok V)) : Option (QE V) :=
@@ -221,73 +207,59 @@ mutual
 /-- `sum: term (('+'|'-') term)*` -/
 def pySum : Nat → List (ETok V) → Option (PE V × List (ETok V))
   | 0, _ => none
-  | f + 1, ts =>
-    match pyTerm f ts with
-    | some (l, r) => pySumLoop f l r
-    | none => none
+  | f + 1, ts => (pyTerm f ts).bind fun p => pySumLoop f p.1 p.2
 def pySumLoop : Nat → PE V → List (ETok V) → Option (PE V × List (ETok V))
   | 0, _, _ => none
-  | f + 1, acc, .plus :: ts =>
-    match pyTerm f ts with
-    | some (r, rest) => pySumLoop f (.bin .add acc r) rest
-    | none => none
-  | f + 1, acc, .minus :: ts =>
-    match pyTerm f ts with
-    | some (r, rest) => pySumLoop f (.bin .sub acc r) rest
-    | none => none
-  | _ + 1, acc, ts => some (acc, ts)
+  | f + 1, acc, ts =>
+    match ts with
+    | .plus :: ts' => (pyTerm f ts').bind fun p => pySumLoop f (.bin .add acc p.1) p.2
+    | .minus :: ts' => (pyTerm f ts').bind fun p => pySumLoop f (.bin .sub acc p.1) p.2
+    | _ => some (acc, ts)
 /-- `term: factor (('*'|'/') factor)*` -/
 def pyTerm : Nat → List (ETok V) → Option (PE V × List (ETok V))
   | 0, _ => none
-  | f + 1, ts =>
-    match pyFactor f ts with
-    | some (l, r) => pyTermLoop f l r
-    | none => none
+  | f + 1, ts => (pyFactor f ts).bind fun p => pyTermLoop f p.1 p.2
 def pyTermLoop : Nat → PE V → List (ETok V) → Option (PE V × List (ETok V))
   | 0, _, _ => none
-  | f + 1, acc, .star :: ts =>
-    match pyFactor f ts with
-    | some (r, rest) => pyTermLoop f (.bin .mul acc r) rest
-    | none => none
-  | f + 1, acc, .slash :: ts =>
-    match pyFactor f ts with
-    | some (r, rest) => pyTermLoop f (.bin .div acc r) rest
-    | none => none
-  | _ + 1, acc, ts => some (acc, ts)
+  | f + 1, acc, ts =>
+    match ts with
+    | .star :: ts' => (pyFactor f ts').bind fun p => pyTermLoop f (.bin .mul acc p.1) p.2
+    | .slash :: ts' => (pyFactor f ts').bind fun p => pyTermLoop f (.bin .div acc p.1) p.2
+    | _ => some (acc, ts)
 /-- `factor: '-' factor | power` -/
 def pyFactor : Nat → List (ETok V) → Option (PE V × List (ETok V))
   | 0, _ => none
-  | f + 1, .minus :: ts =>
-    (match pyFactor f ts with
-     | some (e, r) => some (.neg e, r)
-     | none => none)
-  | f + 1, ts => pyPower f ts
+  | f + 1, ts =>
+    match ts with
+    | .minus :: ts' => (pyFactor f ts').bind fun p => some (.neg p.1, p.2)
+    | _ => pyPower f ts
 /-- `power: atom ['**' factor]` -/
 def pyPower : Nat → List (ETok V) → Option (PE V × List (ETok V))
   | 0, _ => none
   | f + 1, ts =>
-    match pyAtom f ts with
-    | some (a, .pow :: r) =>
-      (match pyFactor f r with
-       | some (b, rest) => some (.pow a b, rest)
-       | none => none)
-    | some (a, r) => some (a, r)
-    | none => none
+    (pyAtom f ts).bind fun p =>
+      match p.2 with
+      | .pow :: r => (pyFactor f r).bind fun q => some (.pow p.1 q.1, q.2)
+      | _ => some p
 /-- `atom: NUMBER | NAME | NAME '(' sum ')' | '(' sum ')'` -/
 def pyAtom : Nat → List (ETok V) → Option (PE V × List (ETok V))
   | 0, _ => none
-  | f + 1, .lp :: ts =>
-    (match pySum f ts with
-     | some (e, .rp :: r) => some (e, r)
-     | _ => none)
-  | f + 1, .fn g :: .lp :: ts =>
-    (match pySum f ts with
-     | some (e, .rp :: r) => some (.call g e, r)
-     | _ => none)
-  | _ + 1, .lit s :: ts => some (.lit s, ts)
-  | _ + 1, .val v :: ts => some (.val v, ts)
-  | _ + 1, .name s :: ts => some (.name s, ts)
-  | _ + 1, _ => none
+  | f + 1, ts =>
+    match ts with
+    | .lp :: ts' =>
+      (pySum f ts').bind fun p =>
+        match p.2 with
+        | .rp :: r => some (p.1, r)
+        | _ => none
+    | .fn g :: .lp :: ts' =>
+      (pySum f ts').bind fun p =>
+        match p.2 with
+        | .rp :: r => some (.call g p.1, r)
+        | _ => none
+    | .lit s :: ts' => some (.lit s, ts')
+    | .val v :: ts' => some (.val v, ts')
+    | .name s :: ts' => some (.name s, ts')
+    | _ => none
 end
 
 def pyParse (ts : List (ETok V)) : Option (PE V) :=
